@@ -690,6 +690,110 @@ theorem register_getElem (lens : List Int) (l : Int) (j : Nat) (hj : j < lens.le
 
 example : total [1, 2, 3] = 6 := by decide
 
+/-! ## UnregisterItem (swap with the last slot, truncate, reset the cursor at or past the slot) -/
+
+theorem unregister_absent (lens : List Int) (rr i : Nat) (h : lens.length ≤ i) :
+    unregister lens rr i = (lens, rr) := by
+  simp [unregister]; omega
+
+theorem count_unregister (lens : List Int) (rr i : Nat) (h : i < lens.length) :
+    count (unregister lens rr i).1 + 1 = count lens := by
+  simp [unregister, h, count]; omega
+
+/-- The cursor invariant `GetRoundRobinItem` needs (an in-range cursor, or an empty manager: the Go
+code indexes `m.items[m.roundRobinIndex]` only after `len(m.items) == 0` has been excluded) is
+kept by `UnregisterItem`. -/
+theorem unregister_cursor (lens : List Int) (rr i : Nat) (hrr : rr < lens.length ∨ lens = []) :
+    (unregister lens rr i).2 < (unregister lens rr i).1.length ∨ (unregister lens rr i).1 = [] := by
+  unfold unregister
+  by_cases h : i < lens.length
+  · simp only [h, if_true]
+    by_cases hge : rr ≥ i
+    · simp only [hge, if_true]
+      by_cases h1 : lens.length = 1
+      · right; apply List.eq_nil_of_length_eq_zero; simp; omega
+      · left; simp; omega
+    · simp only [hge, if_false]; left; simp; omega
+  · simp only [h, if_false]; exact hrr
+
+/-- Slots before the last keep their item except slot `i`, which receives the former last item:
+no other queue changes its index, and none is lost or duplicated. -/
+theorem unregister_getElem (lens : List Int) (rr i j : Nat) (h : i < lens.length)
+    (hj : j < lens.length - 1) :
+    (unregister lens rr i).1[j]? = if j = i then lens[lens.length - 1]? else lens[j]? := by
+  simp only [unregister, h, if_true]
+  rw [List.getElem?_dropLast]
+  simp only [List.length_set, hj, if_true]
+  rw [List.getElem?_set]
+  by_cases hji : i = j
+  · subst hji; simp [h, List.getD_eq_getElem?_getD]
+    have : lens.length - 1 < lens.length := by omega
+    simp [List.getElem?_eq_getElem this]
+  · have : ¬ j = i := fun e => hji e.symm
+    simp [hji, this]
+
+theorem perm_sum_int {l₁ l₂ : List Int} (h : l₁.Perm l₂) : l₁.sum = l₂.sum := by
+  induction h with
+  | nil => rfl
+  | cons x _ ih => simp [ih]
+  | swap x y l => simp; omega
+  | trans _ _ ih1 ih2 => exact ih1.trans ih2
+
+/-- `Manager.Len` after `UnregisterItem` is the old total minus the removed item's length. -/
+theorem total_unregister (lens : List Int) (rr i : Nat) (h : i < lens.length) :
+    total (unregister lens rr i).1 + lens[i] = total lens := by
+  simp only [unregister, h, if_true, total_eq_sum]
+  have hl : lens.length - 1 < lens.length := by omega
+  have hperm : ((lens.set i (lens.getD (lens.length - 1) 0)).dropLast ++ [lens[i]]).Perm lens := by
+    by_cases hil : i = lens.length - 1
+    · have : lens.getD (lens.length - 1) 0 = lens[i] := by
+        subst hil; simp [List.getD_eq_getElem?_getD, List.getElem?_eq_getElem hl]
+      rw [this, List.set_getElem_self]
+      have hne : lens ≠ [] := by intro e; simp [e] at h
+      have hlast : lens.getLast hne = lens[i] := by
+        rw [List.getLast_eq_getElem]; simp [hil]
+      rw [← hlast, List.dropLast_concat_getLast]
+    · -- i < length - 1: write lens = a ++ x :: b ++ [y]
+      have hne : lens ≠ [] := by intro e; simp [e] at h
+      have hd := List.dropLast_concat_getLast hne
+      generalize hini : lens.dropLast = ini at hd
+      generalize hy : lens.getLast hne = y at hd
+      have hgetD : lens.getD (lens.length - 1) 0 = y := by
+        rw [← hy, List.getLast_eq_getElem]; simp [List.getD_eq_getElem?_getD, List.getElem?_eq_getElem hl]
+      rw [hgetD]
+      have hinilen : ini.length = lens.length - 1 := by rw [← hini]; simp
+      have hi' : i < ini.length := by omega
+      have hx : lens[i] = ini[i] := by
+        have : lens[i] = (ini ++ [y])[i]'(by simp; omega) := by simp [hd]
+        rw [this, List.getElem_append_left hi']
+      subst hd
+      rw [List.set_append_left _ _ hi', List.dropLast_concat, hx]
+      -- (ini.set i y) ++ [ini[i]] ~ ini ++ [y]
+      have hs := List.set_eq_take_append_cons_drop (l := ini) (i := i) (a := y)
+      simp only [hi', if_true] at hs
+      rw [hs]
+      have hini2 : ini = ini.take i ++ ini[i] :: ini.drop (i + 1) := by
+        conv => lhs; rw [← List.take_append_drop i ini, List.drop_eq_getElem_cons hi']
+      conv => rhs; rw [hini2]
+      simp only [List.append_assoc, List.cons_append]
+      apply List.Perm.append_left
+      -- y :: d ++ [x] ~ x :: d ++ [y]
+      have p1 : (y :: (ini.drop (i+1) ++ [ini[i]])).Perm (ini[i] :: y :: ini.drop (i+1)) := by
+        have : (ini.drop (i+1) ++ [ini[i]]).Perm (ini[i] :: ini.drop (i+1)) := List.perm_append_singleton _ _
+        exact (List.Perm.cons y this).trans (List.Perm.swap _ _ _)
+      have p2 : (ini[i] :: (ini.drop (i+1) ++ [y])).Perm (ini[i] :: y :: ini.drop (i+1)) :=
+        List.Perm.cons _ (List.perm_append_singleton _ _)
+      exact p1.trans p2.symm
+  have := perm_sum_int hperm
+  rw [List.sum_append] at this
+  simp only [List.sum_cons, List.sum_nil] at this
+  omega
+
+example : unregister [5, 6, 7, 8] 2 1 = ([5, 8, 7], 0) := by decide
+example : unregister [5, 6, 7, 8] 0 1 = ([5, 8, 7], 0) := by decide
+example : unregister [5, 6, 7, 8] 1 3 = ([5, 6, 7], 1) := by decide
+example : unregister [5] 0 0 = ([], 0) := by decide
+
 /-! ## queueManager.next -/
 
 theorem next_roundRobin (lens : List Int) (rr : Nat) :
@@ -1103,6 +1207,10 @@ example :
 #print axioms minLen_allEmpty_iff
 #print axioms minLen_ok_iff
 #print axioms total_eq_sum
+#print axioms unregister_cursor
+#print axioms unregister_getElem
+#print axioms total_unregister
+#print axioms count_unregister
 #print axioms nonemptyAtSelects_iff
 #print axioms rr_no_starvation
 #print axioms rr_equal_share
